@@ -47,6 +47,7 @@ type scenario struct {
 	prepare func(w *world, pfx string) (*sdata, error)
 	run     func(w *world, pfx string, d *sdata) error // an error is expected when a fault fires
 	async   bool                                        // the operation continues after the command returned
+	done    func(w *world, pfx string) bool             // async operations: "the fault-free operation has finished"
 	refuses bool                                        // the command is answered NO even without a fault (APPEND fallback)
 	// marker of the message an APPEND hands over: when the APPEND fails the server keeps the message in the recovery
 	// mailbox instead (its designed alternative outcome) — the view "before + that copy" is then legitimate as well
@@ -261,6 +262,19 @@ func scenarios(tier string) []scenario {
 			run: func(w *world, pfx string, d *sdata) error {
 				_, err := d.c.Cmd("LOGOUT")
 				return err
+			},
+			// finished when the purge has removed every row that was marked for deletion
+			done: func(w *world, pfx string) bool {
+				s, err := w.snap()
+				if err != nil {
+					return true
+				}
+				for _, m := range s.Ms {
+					if m.Deleted {
+						return false
+					}
+				}
+				return true
 			}, model: modelSessionEnd},
 	}
 }
@@ -348,7 +362,7 @@ func (w *world) quiesceN(need int, step time.Duration) {
 		if err != nil {
 			return
 		}
-		if r.Total == last {
+		if r.Total == last && r.Open == 0 { // nothing new, and no database / store call in progress
 			same++
 			if same >= need {
 				return
@@ -364,8 +378,20 @@ func (w *world) quiesceN(need int, step time.Duration) {
 func (w *world) settle(async bool) {
 	if async {
 		time.Sleep(60 * time.Millisecond)
-		w.quiesce()
+		w.quiesceN(12, 5*time.Millisecond)
 	}
+}
+
+// settleUntil waits (up to 15 s) until cond holds, then until the server is quiet: for the traced reference run of an
+// operation that goes on after its command was answered (purge at the end of a session), whose trace must be complete.
+func (w *world) settleUntil(cond func() bool) {
+	for i := 0; i < 1500; i++ {
+		if cond() {
+			break
+		}
+		time.Sleep(10 * time.Millisecond)
+	}
+	w.quiesceN(12, 5*time.Millisecond)
 }
 
 func (w *world) snap() (*dbSnap, error) {
@@ -491,7 +517,11 @@ func (w *world) runScenario(si int, sc scenario) error {
 		closeAll(d)
 		return fmt.Errorf("reference run: %w", err)
 	}
-	w.settle(sc.async)
+	if sc.async && sc.done != nil {
+		w.settleUntil(func() bool { return sc.done(w, ref.pfx) })
+	} else {
+		w.settle(sc.async)
+	}
 	r, err := w.p.call(req{Op: "disarm"})
 	if err != nil {
 		return err
